@@ -45,6 +45,9 @@ type WatchWorld struct {
 	// whatever the earlier runs did.
 	NAfter int    `json:"nafter,omitempty"`
 	Fails  []bool `json:"fails,omitempty"`
+	// TimeoutMS: the watched task has a timeout; runs whose command takes longer are cut short
+	// (a failed run like any other: the watcher goes on serving events)
+	TimeoutMS int `json:"timeout_ms,omitempty"`
 }
 
 var opNames = map[uint32]string{1: "create", 2: "write", 4: "remove", 8: "rename", 16: "chmod"}
@@ -188,6 +191,9 @@ func GenWatchWorld(ch *Choices, thorough bool) *WatchWorld {
 	}
 	w.TaskDurs = append(w.TaskDurs, ch.Choose(1500, "task-dur"))
 	w.Relative = ch.Bool(1, 2, "relative-patterns")
+	if ch.Bool(1, 3, "task-timeout") {
+		w.TimeoutMS = 300 + ch.Choose(900, "timeout-ms")
+	}
 	if ch.Bool(1, 2, "after-hooks") {
 		w.NAfter = ch.Range(1, 2, "n-after")
 		for i := 0; i <= nh; i++ {
@@ -505,7 +511,10 @@ func runWatchJob(c *Ctl, job *Job, idx int, res *RunResult, pre *watchPre) {
 				got = append(got, x.ID)
 			}
 			want := []string{execID("wt", "cmd", 0, "")}
-			failed := exitOf[byG[g][0].Key] != 0
+			failed := exitOf[byG[g][0].Key] != 0 || byG[g][0].CtxDone
+			if byG[g][0].CtxDone {
+				c.Count("c20_runs_cut_short_by_the_task_timeout")
+			}
 			if !failed {
 				for i := 0; i < w.NAfter; i++ {
 					want = append(want, execID("wt", "after", i, ""))
@@ -683,7 +692,7 @@ func prepareWatch(ch *Choices, job *Job, idx int) *watchPre {
 			return pre
 		}
 	}
-	t := buildRealTask(&TaskSpec{Name: "wt", NCmd: 1, NAfter: pre.w.NAfter})
+	t := buildRealTask(&TaskSpec{Name: "wt", NCmd: 1, NAfter: pre.w.NAfter, TimeoutMS: pre.w.TimeoutMS})
 	fdsBefore := inotifyFDs()
 	pollersBefore := countPollers()
 	wt, err := watch.NewWatcher("w", pre.w.Events, abs(pre.w.Include), abs(pre.w.Exclude), t)
